@@ -7,6 +7,12 @@ Import ListNotations.
 
 Definition bytes := list byte.
 
+(* List.rev of the standard library is quadratic (rev l ++ [x]); the executable model uses the
+   linear rev_append form, equal to it by [rev'_eq] *)
+Definition rev' {A} (l : list A) : list A := rev_append l [].
+Lemma rev'_eq {A} (l : list A) : rev' l = rev l.
+Proof. unfold rev'. symmetry. apply rev_alt. Qed.
+
 Definition b2n (b : byte) : N := Byte.to_N b.
 Definition beq (a b : byte) : bool := N.eqb (b2n a) (b2n b).
 Definition n2b (n : N) : byte := match Byte.of_N n with Some b => b | None => x00 end.
@@ -51,7 +57,7 @@ Definition mem_byte (c : byte) (cs : bytes) : bool := existsb (beq c) cs.
 
 (* strings.LastIndex with a one-byte needle *)
 Definition last_index_byte (c : byte) (s : bytes) : option nat :=
-  match index_byte c (rev s) with Some i => Some (length s - 1 - i) | None => None end.
+  match index_byte c (rev' s) with Some i => Some (length s - 1 - i) | None => None end.
 
 (* Go slice expression s[lo:hi]; panics (Crash) when out of range *)
 Definition slice_chk (s : bytes) (lo hi : nat) : res bytes :=
@@ -61,19 +67,19 @@ Definition slice (s : bytes) (lo hi : nat) : bytes := firstn (hi - lo) (skipn lo
 (* strings.Split(s, sep) for a one-byte separator: all tokens preserved *)
 Fixpoint split_byte_aux (c : byte) (s : bytes) (cur : bytes) : list bytes :=
   match s with
-  | [] => [rev cur]
-  | x :: s' => if beq x c then rev cur :: split_byte_aux c s' [] else split_byte_aux c s' (x :: cur)
+  | [] => [rev' cur]
+  | x :: s' => if beq x c then rev' cur :: split_byte_aux c s' [] else split_byte_aux c s' (x :: cur)
   end.
 Definition split_byte (c : byte) (s : bytes) : list bytes := split_byte_aux c s [].
 
 (* strings.SplitN(s, sep, n) for a one-byte separator and n >= 1 *)
 Fixpoint splitn_byte_aux (c : byte) (n : nat) (s : bytes) (cur : bytes) : list bytes :=
   match n with
-  | O => [rev cur ++ s]
+  | O => [rev' cur ++ s]
   | S n' =>
     match s with
-    | [] => [rev cur]
-    | x :: s' => if beq x c then rev cur :: splitn_byte_aux c n' s' [] else splitn_byte_aux c n s' (x :: cur)
+    | [] => [rev' cur]
+    | x :: s' => if beq x c then rev' cur :: splitn_byte_aux c n' s' [] else splitn_byte_aux c n s' (x :: cur)
     end
   end.
 Definition splitn_byte (c : byte) (n : nat) (s : bytes) : list bytes := splitn_byte_aux c (n - 1) s [].
@@ -120,7 +126,7 @@ Definition is_space (b : byte) : bool :=
   match b2n b with 9%N | 10%N | 11%N | 12%N | 13%N | 32%N => true | _ => false end.
 Fixpoint trim_left (s : bytes) : bytes :=
   match s with x :: s' => if is_space x then trim_left s' else s | [] => [] end.
-Definition trim_right (s : bytes) : bytes := rev (trim_left (rev s)).
+Definition trim_right (s : bytes) : bytes := rev' (trim_left (rev' s)).
 Definition trim_space (s : bytes) : bytes := trim_right (trim_left s).
 
 (* string comparison as Go's < on strings (bytewise) *)
@@ -141,7 +147,7 @@ Fixpoint list_eqb {A} (eq : A -> A -> bool) (a b : list A) : bool :=
   end.
 
 Definition last_byte (s : bytes) : option byte :=
-  match rev s with x :: _ => Some x | [] => None end.
+  match rev' s with x :: _ => Some x | [] => None end.
 
 (* insertion sort (stable); Go's slices.Sort on a total order yields the same list *)
 Fixpoint insert_sorted {A} (le : A -> A -> bool) (x : A) (l : list A) : list A :=
